@@ -41,6 +41,16 @@ def run(model, name, bound=None, overrides=None, kinds=None, no_inline=(), selfo
 PYERRORS = []
 
 
+def report_pyerrors(rep):
+    from . import terms as T_
+    rep.rule('NO-PYERROR', 'no path evaluated by the rules above contains a Python-level error that the evaluator models exactly (NameError / UnboundLocalError for a name '
+                           'that is unbound on that path, AttributeError for a missing attribute of a constructed object, TypeError for **None or a duplicate keyword): '
+                           'such a call raises instead of producing the result the property talks about')
+    for kind, guard, where, entry in PYERRORS:
+        rep.violation('NO-PYERROR', f'{kind}@{where}', where, expected='the path returns', found=f'{kind} raised when {entry} is evaluated' +
+                      ('' if guard == T_.TRUE else f' under {T_.brief(guard, 100)}'))
+
+
 def spec(name, bound=None, overrides=None, kinds=None, repo=None):
     ctx = SE.Ctx(spec_model(), overrides=overrides, kinds=kinds)
     ctx.fallback = repo
